@@ -8,8 +8,28 @@ from vlib import Break
 MODULE = "GoNfsd.Props.C17"
 
 
+def failing_simple_functions(ctx):
+    """Concrete call sites: the functions of simple/ops.go that do not hold the inode's lock across the body and its waiting commit."""
+    import re
+    f = os.path.join(ctx.scratch, "simplelocks.lean")
+    open(f, "w").write("import GoNfsd.Gen.Skeleton\nopen GoNfsd.Model.Skeleton GoNfsd.Gen.Skeleton\n"
+                       "#eval simpleLockUses.filterMap fun f => if simpleCheck f then none else some s!\"SIMPLE {f.1} {f.2.2}\"\n")
+    rc, out = vlib.run(["lake", "build", "GoNfsd.Gen.Skeleton"], cwd=vlib.LEAN, timeout=600)
+    if rc != 0:
+        return []
+    rc, out = vlib.run(["lake", "env", "lean", f], cwd=vlib.LEAN, timeout=600)
+    return re.findall(r"SIMPLE (\S+) (\[.*?\])\"", out)
+
+
 def run(ctx):
-    ok_go, ok_drv = seqlib.build_and_prove(ctx, MODULE)
+    ok_go, ok_drv = seqlib.build_and_prove(ctx, MODULE, extra_parts=["skeleton"])
+    if any(b.kind == "proof" for b in ctx.breaks):
+        for name, calls in failing_simple_functions(ctx)[:3]:
+            ctx.add_violation("lock-not-held-across-commit:" + name,
+                              "simple.%s does not hold the inode's lock from before its body until after the body's waiting commit: (0 Acquire, 1 Release, 2 body, 3 CommitWait) in source order: %s" % (name, calls),
+                              {"input": {"function": "simple." + name, "calls_in_source_order": calls},
+                               "how": "regenerated table Gen/Skeleton.simpleLockUses checked by Model/Skeleton.simpleCheck (theorem simple_holds_the_lock_across_the_waiting_commit): "
+                                      "a request that runs beside a writer is answered from the journal's memory, and a crash before the writer's flush undoes what the reply reported"})
     if ok_go:
         tr = os.path.join(ctx.scratch, "simple.txt")
         args = ["-seqs", "100", "-ops", "500"] if ctx.tier == "thorough" else ["-seqs", "12", "-ops", "300"]
@@ -64,9 +84,11 @@ def run(ctx):
         ctx, "proof",
         "theorems: WRITE accepted exactly when count = len(data), the end is within 4096 bytes and there is no hole; accepted WRITE, READ and SETATTR refine the "
         "specification 'files are byte strings of at most 4096 bytes' (content equations, end-of-file flag, zero fill on growth); invalid inode numbers refused "
-        "without effect; requests touch one file; well-formedness is an invariant; per-file objects are disjoint. Correspondence on all procedures with exact status codes",
+        "without effect; requests touch one file; well-formedness is an invariant; per-file objects are disjoint; every handler holds the inode's lock across its body and the body's "
+        "waiting commit (table regenerated from simple/ops.go), so — model M11, any interleaving — a reply reveals only what a crash cannot undo. Correspondence on all procedures with exact status codes",
         "request sequences over inode numbers 0..40 and huge, handles shorter than 8 bytes, offsets/sizes/counts at 0,1,2,4094..4097,8192,2^32,2^63,2^64-k, count≠len(data), "
         "appends at the current size, lookups, commits, unsupported procedures; every reply compared exactly",
         ["64-bit offsets are read as natural numbers (exact because of the explicit SumOverflows test, which the correspondence exercises at 2^64-k)"],
         pending=[],
-        partial=["concurrent requests: rounds of 2-4 simultaneous WRITE/SETATTR on one inode must be explained by some order applied by the model (sampled schedules, not a theorem)", "crash atomicity/durability: theorems of C01 on the WAL model + recorded-trace validation + prefix-state oracle on sampled crash images of WRITE/SETATTR workloads (recovered by simple.Recover)"])
+        partial=["concurrent requests: rounds of 2-4 simultaneous WRITE/SETATTR on one inode must be explained by some order applied by the model (sampled schedules, not a theorem)", "crash atomicity/durability: theorems of C01 on the WAL model + recorded-trace validation + prefix-state oracle on sampled crash images of WRITE/SETATTR workloads (recovered by simple.Recover); "
+                 "crash right after a revealing reply: SETATTR 1,2,3,... beside two GETATTR clients on a disk slow on the log header, crash (un-barriered writes lost) at the position of each first reply reporting a size, the recovered size must not be smaller"])
